@@ -763,3 +763,62 @@ def _consumes(stmt, bufname):
             if any(isinstance(a, ast.Name) and a.id == bufname for a in n.args):
                 return True
     return False
+
+
+# ----------------------------------------------------------------------------- IX10
+def ix10(model):
+    r = RuleResult('IX10', 'values of a key-value list may be None (key given without "="): a '
+                   'value obtained with .get(key, default) / [key] from parse_keyvals_dict is '
+                   'normalised (`or default`) or tested before it is used as a token list; a '
+                   'number taken from the document bounds-checked before it multiplies a string',
+                   floor=2)
+    for f in model.all_funcs():
+        if isinstance(f.node, ast.Lambda) or f.mod.short.startswith('shell'):
+            continue
+        for n in iter_scope(f.node):
+            # .get() on the result of parse_keyvals_dict
+            if isinstance(n, ast.Call) and isinstance(n.func, ast.Attribute) and n.func.attr == 'get' \
+                    and isinstance(n.func.value, ast.Call) and T.call_name(n.func.value) == 'parse_keyvals_dict':
+                p = n._parent
+                if isinstance(p, ast.BoolOp) and isinstance(p.op, ast.Or) and p.values[0] is n:
+                    r.ok(n, 'None value of a key without "=" is replaced by a default', nontrivial=True)
+                elif isinstance(p, ast.Assign) and isinstance(p.targets[0], ast.Name) and guards_any_use_tested(f, p.targets[0].id, p):
+                    r.ok(n, 'value is tested before use', nontrivial=True)
+                else:
+                    r.fail(n, 'the value of a key-value entry may be None (key without "=") and is '
+                           'used as a token list', witness='\\newglossaryentry{a}{description}')
+            # 'A' * n with n from the document
+            if isinstance(n, ast.BinOp) and isinstance(n.op, ast.Mult):
+                for a, b in ((n.left, n.right), (n.right, n.left)):
+                    if isinstance(a, ast.Constant) and isinstance(a.value, str) and a.value:
+                        names = [x for x in ast.walk(b) if isinstance(x, ast.Name)]
+                        doc = [x for x in names if any(
+                            isinstance(v, (ast.IfExp, ast.Call)) and any(
+                                isinstance(c, ast.Call) and getattr(c.func, 'id', '') == 'int' for c in ast.walk(v))
+                            for v in T.resolve_local(model, x))]
+                        if not doc:
+                            continue
+                        v = doc[0].id
+                        bounded = any(isinstance(d, ast.If) and any(
+                            isinstance(c, ast.Compare) and unparse(c.left) == v
+                            and isinstance(c.ops[0], (ast.Gt, ast.GtE)) for c in ast.walk(d.test))
+                            for d in dominating_stmts(n))
+                        if bounded:
+                            r.ok(n, 'the repeat count %s is bounds-checked before' % v, nontrivial=True)
+                        else:
+                            r.fail(n, 'a string is repeated %s times, a number read from the document '
+                                   'without an upper bound: MemoryError' % v,
+                                   witness='\\newcommand{\\x}[99999999999]{}')
+    return r
+
+
+def guards_any_use_tested(fn, name, after):
+    uses = [n for n in iter_scope(fn.node) if isinstance(n, ast.Name) and n.id == name
+            and isinstance(n.ctx, ast.Load) and n.lineno > after.lineno]
+    if not uses:
+        return True
+    u = uses[0]
+    p = u._parent
+    return (isinstance(p, (ast.If, ast.IfExp)) and p.test is u) or \
+        (isinstance(p, ast.BoolOp) and p.values[0] is u) or \
+        (isinstance(p, ast.UnaryOp) and isinstance(p.op, ast.Not))
